@@ -688,6 +688,13 @@ def check_descriptor(ctx: Ctx, w: World, D, node, net: str, focus=None) -> None:
                     ctx.mon("address")
                     if ao[0] == "raise" or ao[1] != wa:
                         ctx.violation("address-differs", f"{text[:80]} at {i} on {dnet}: address {ao[1]!r}, reference {wa}", {**c2, "script": spk.hex()})
+            # the list spelling: one address per script, in order, those of the standard types equal to the reference's
+            if idx_n in (0, 3):
+                lo = outcome(d.addresses, i, prv if use_prv else None)
+                std = [ra.address_of_script(w.nd, spk, dnet) if ra.script_type(spk) in ("p2pkh", "p2sh", "p2wpkh", "p2wsh", "p2tr") else None for spk in want]
+                ctx.mon("addresses")
+                if lo[0] == "raise" or len(lo[1]) != len(want) or any(wa is not None and ga != wa for ga, wa in zip(lo[1], std)):
+                    ctx.violation("address-differs", f"Descriptor.addresses({i}) = {lo[1]!r}, reference {std}", c2)
             if len(want) == 1 and idx_n in (0, 5):
                 ao = outcome(d.address, i, prv if use_prv else None)
                 wa = ra.address_of_script(w.nd, want[0], dnet) if ra.script_type(want[0]) in ("p2pkh", "p2sh", "p2wpkh", "p2wsh", "p2tr") else None
